@@ -436,7 +436,8 @@ class CallMixin:
             self.ctx.pop()
 
     def contract_requires(self, c, ci):
-        out = list(c.requires)
+        from .contracts import active_clauses
+        out = active_clauses(c.requires, self.instance)
         if ci is not None and c.invariants and not c.qual.endswith(".__init__"):
             spec = self.reg.classes.get(ci.qual)
             if spec is not None:
@@ -444,7 +445,8 @@ class CallMixin:
         return out
 
     def contract_ensures(self, c, ci):
-        out = list(c.ensures)
+        from .contracts import active_clauses
+        out = active_clauses(c.ensures, self.instance)
         if ci is not None and c.invariants:
             spec = self.reg.classes.get(ci.qual)
             if spec is not None:
